@@ -66,6 +66,17 @@ def stateful_views(tmp):
         ('aggregate(hashjoin)', lambda: etl.aggregate(etl.hashjoin(a, b, key='k'), 'k', len, buffersize=1, tempdir=tmp)),
         ('select(sort(cache))', lambda: etl.select(etl.sort(etl.wrap(a).cache(2), 'n', reverse=True), lambda r: True)),
         ('sort(fromdicts(generator))', lambda: etl.sort(etl.fromdicts(gen_dicts(3)), 'k', buffersize=2, tempdir=tmp)),
+        ('mergesort(presorted,missing)', lambda: etl.mergesort(etl.sort(etl.cut(a, 'k', 'n'), 'k'), etl.sort(etl.cut(b, 'k'), 'k'), key='k', presorted=True, missing='M')),
+        ('mergesort(missing,header)', lambda: etl.mergesort(etl.cut(a, 'k', 'n'), etl.cut(b, 'k'), key='k', missing='M', header=['n', 'k', 'z'])),
+        ('hashjoin(prefixes)', lambda: etl.hashjoin(a, b, key='k', lprefix='l_', rprefix='r_')),
+        ('hashleftjoin(rprefix)', lambda: etl.hashleftjoin(a, b, key='k', rprefix='r_')),
+        ('hashrightjoin(lprefix)', lambda: etl.hashrightjoin(a, b, key='k', lprefix='l_')),
+        ('join(prefixes)', lambda: etl.join(a, b, key='k', lprefix='l_', rprefix='r_')),
+        ('mergeduplicates(key=list)', lambda: etl.mergeduplicates(etl.cut(a, 'k', 's', 'n'), key=['k', 's'])),
+        ('mergeduplicates(key=list, rows to merge)', lambda: etl.mergeduplicates([['k', 'j', 'v', 'w'], [1, 1, 'a', None], [1, 1, None, 'b'], [2, 1, 'c', 'd']], key=['k', 'j'])),
+        ('merge(key=list)', lambda: etl.merge([['k', 'j', 'v', 'w'], [1, 1, 'a', None], [2, 1, 'c', 'd']], [['k', 'j', 'v', 'w'], [1, 1, None, 'b']], key=['k', 'j'])),
+        ('aggregate(key=list)', lambda: etl.aggregate(a, ['k'], len)),
+        ('distinct(key=list)', lambda: etl.distinct(a, key=['k'])),
         ('randomtable', lambda: etl.randomtable(2, 3, seed=42)),
         ('randomtable(seed=0)', lambda: etl.randomtable(2, 3, seed=0)),
         ("randomtable(seed='')", lambda: etl.randomtable(2, 3, seed='')),
